@@ -8,6 +8,10 @@ import (
 	"errors"
 	"fmt"
 	"io"
+	"os"
+	"os/exec"
+	"strconv"
+	"strings"
 	"testing"
 	"time"
 	_ "time/tzdata"
@@ -240,6 +244,56 @@ func mkLogger(names [][]string) *mc.Exec {
 	return &mc.Exec{Body: body, Check: check}
 }
 
+// ---- loggers: an independent logger is not held up by another logger's output ----
+
+// stalledWriter is a log destination that makes no progress (a full pipe, a
+// hung sink): Write parks until the gate is closed, which never happens here.
+type stalledWriter struct{ gate *mc.Chan[struct{}] }
+
+func (w stalledWriter) Write(p []byte) (int, error) { w.gate.Recv(); return len(p), nil }
+
+// mkLoggerProgress: logger "a" is in the middle of a line to a stalled
+// destination; someone applies the process-wide options (optionally); an
+// unrelated caller creates and uses loggers of its own. The unrelated caller
+// must finish, with the lines it would get alone, while "a" stays stalled.
+func mkLoggerProgress(apply bool, others []string) *mc.Exec {
+	var bufs []*bytes.Buffer
+	body := func() {
+		logger.McResetRegistry()
+		gate := mc.NewChan[struct{}]()
+		la := logger.NewLogger("a")
+		la.SetOutput(stalledWriter{gate})
+		mc.GoNamed("stalled", func() { la.Info("a line that is never written out") })
+		if apply {
+			mc.GoNamed("apply", func() {
+				o := logger.DefaultOptions()
+				_ = logger.ApplyOptionsToLoggers(&o)
+			})
+		}
+		mc.GoNamed("other", func() {
+			for _, n := range others {
+				var b bytes.Buffer
+				bufs = append(bufs, &b)
+				l := logger.NewLogger(n)
+				l.SetOutput(&b)
+				l.Info("hello from " + n)
+			}
+		})
+	}
+	check := func(e *mc.End) error {
+		if !e.Finished("other") {
+			return fmt.Errorf("[key=held-up-by-another-loggers-output] the caller working on loggers %v never finished while logger \"a\" is stalled on its own destination; parked=%v", others, e.Parked())
+		}
+		for i, n := range others {
+			if got := bufs[i].String(); !strings.Contains(got, "hello from "+n) || strings.Count(got, "\n") != 1 {
+				return fmt.Errorf("logger %q wrote %q, alone it writes one line with its message", n, got)
+			}
+		}
+		return nil
+	}
+	return &mc.Exec{Body: body, Check: check}
+}
+
 // ---- byte slice pools ----
 
 func base(b []byte) uintptr {
@@ -308,6 +362,17 @@ func mkPools(rounds int) *mc.Exec {
 type cronJob struct {
 	spec    string
 	seconds bool
+	five    bool // a caller's own five-field parser that starts at seconds: Second|Minute|Hour|Dom|Month
+}
+
+func (j cronJob) String() string {
+	k := "standard"
+	if j.five {
+		k = "sec-min-hour-dom-month"
+	} else if j.seconds {
+		k = "six-field"
+	}
+	return fmt.Sprintf("%q(%s)", j.spec, k)
 }
 
 func cronNext(j cronJob) (string, error) {
@@ -315,7 +380,9 @@ func cronNext(j cronJob) (string, error) {
 		sc  cron.Schedule
 		err error
 	)
-	if j.seconds {
+	if j.five {
+		sc, err = cron.NewParser(cron.Second | cron.Minute | cron.Hour | cron.Dom | cron.Month).Parse(j.spec)
+	} else if j.seconds {
 		sc, err = cron.NewParser(cron.Second | cron.Minute | cron.Hour | cron.Dom | cron.Month | cron.Dow | cron.Descriptor).Parse(j.spec)
 	} else {
 		sc, err = cron.ParseStandard(j.spec)
@@ -335,17 +402,54 @@ func cronNext(j cronJob) (string, error) {
 
 var cronSolo = map[cronJob]string{}
 
+// the same spec text under differently configured parsers is part of the set:
+// what one parser made of a text must not reach another parser
+var cronJobs = []cronJob{
+	{"TZ=Asia/Tokyo @daily", false, false}, {"TZ=America/New_York @daily", false, false}, {"CRON_TZ=Europe/London @hourly", true, false},
+	{"TZ=Asia/Tokyo 30 4 * * *", false, false}, {"@weekly", false, false}, {"TZ=Pacific/Auckland @weekly", true, false}, {"@every 90m", false, false},
+	{"30 4 1 1 *", false, false}, {"30 4 1 1 *", false, true}, {"30 4 1 1 * *", true, false}, {"30 4 1 1 * *", false, false}, {"TZ=Asia/Tokyo 30 4 * * *", false, true},
+}
+
+// cronAlone is the result of job i ALONE: in a process of its own, so that
+// package-level state left behind by any other parse cannot be part of it
+// (the harness process itself parses many specs one after another).
+func cronAlone(i int) string {
+	cmd := exec.Command(os.Args[0], "-test.run=^TestCronAlone$")
+	cmd.Env = append(os.Environ(), fmt.Sprintf("C08_CRON_ALONE=%d", i))
+	out, err := cmd.CombinedOutput()
+	for _, l := range strings.Split(string(out), "\n") {
+		if r, ok := strings.CutPrefix(l, "ALONE:"); ok {
+			return r
+		}
+	}
+	panic(fmt.Sprintf("cron job %d alone: no result (%v)\n%s", i, err, out))
+}
+
+func cronResult(j cronJob) string {
+	r, err := cronNext(j)
+	if err != nil {
+		return "error: " + err.Error()
+	}
+	return r
+}
+
+// TestCronAlone is the child side of cronAlone.
+func TestCronAlone(t *testing.T) {
+	v := os.Getenv("C08_CRON_ALONE")
+	if v == "" {
+		t.Skip("helper of cronAlone")
+	}
+	i, _ := strconv.Atoi(v)
+	fmt.Println("ALONE:" + cronResult(cronJobs[i]))
+}
+
 func mkCron(jobs []cronJob) *mc.Exec {
 	res := make([]string, len(jobs))
 	body := func() {
 		for i, j := range jobs {
 			i, j := i, j
 			mc.GoNamed(fmt.Sprintf("parser%d", i), func() {
-				r, err := cronNext(j)
-				if err != nil {
-					r = "error: " + err.Error()
-				}
-				res[i] = r
+				res[i] = cronResult(j)
 			})
 		}
 	}
@@ -407,6 +511,16 @@ func scenarios() []hx.Scenario {
 			Mk:   func() *mc.Exec { return mkEnc(ef, pair[0], pair[1]) },
 		})
 	}
+	for _, others := range [][]string{{"b"}, {"b", "c"}, {"a2", "b"}} {
+		for _, apply := range []bool{true, false} {
+			others, apply := others, apply
+			out = append(out, hx.Scenario{
+				Name: fmt.Sprintf("logger-progress apply=%v others=%v", apply, others), Class: "logger-registry",
+				Opts: mc.Options{Delay: true, MinBound: 2, Bound: 3, MaxSteps: 20000},
+				Mk:   func() *mc.Exec { return mkLoggerProgress(apply, others) },
+			})
+		}
+	}
 	for _, names := range [][][]string{
 		{{"a"}, {"a"}}, {{"a"}, {"b"}}, {{"a", "b"}, {"b", "a"}}, {{"a"}, {"a"}, {"b"}}, {{"a", "a"}, {"a"}},
 	} {
@@ -417,16 +531,9 @@ func scenarios() []hx.Scenario {
 			Mk:   func() *mc.Exec { return mkLogger(names) },
 		})
 	}
-	cjobs := []cronJob{
-		{"TZ=Asia/Tokyo @daily", false}, {"TZ=America/New_York @daily", false}, {"CRON_TZ=Europe/London @hourly", true},
-		{"TZ=Asia/Tokyo 30 4 * * *", false}, {"@weekly", false}, {"TZ=Pacific/Auckland @weekly", true}, {"@every 90m", false},
-	}
-	for _, j := range cjobs {
-		r, err := cronNext(j) // alone (outside an execution the runtime is idle)
-		if err != nil {
-			panic(err)
-		}
-		cronSolo[j] = r
+	cjobs := cronJobs
+	for i, j := range cjobs {
+		cronSolo[j] = cronAlone(i)
 	}
 	for i, a := range cjobs {
 		for k, b := range cjobs {
@@ -435,7 +542,7 @@ func scenarios() []hx.Scenario {
 			}
 			pair := []cronJob{a, b}
 			out = append(out, hx.Scenario{
-				Name: fmt.Sprintf("cron %q || %q", a.spec, b.spec), Class: "cron-parsers",
+				Name: fmt.Sprintf("cron %s || %s", a, b), Class: "cron-parsers",
 				Opts: mc.Options{Bound: 2, TieCost: 1},
 				Mk:   func() *mc.Exec { return mkCron(pair) },
 			})
